@@ -147,6 +147,15 @@ macro_rules! Header {
                     _ => None
                 }
             }
+            /// header names are case-insensitive: accept any case, trying the usual ones first
+            #[inline]
+            pub fn from_bytes_ignore_case(bytes: &[u8]) -> Option<Self> {
+                Self::from_bytes(bytes).or_else(|| {
+                    bytes.iter().any(u8::is_ascii_uppercase)
+                        .then(|| Self::from_bytes(&bytes.to_ascii_lowercase()))
+                        .flatten()
+                })
+            }
         }
 
         impl<T: AsRef<[u8]>> PartialEq<T> for Header {
@@ -194,10 +203,13 @@ macro_rules! Header {
                 self.get(name)
             }
             pub fn get(&self, name: &str) -> Option<&str> {
-                let value = self.custom.as_ref()?
-                    .get(&Slice::from_bytes(name.as_bytes()))
+                let value = self.custom.as_ref()
+                    .and_then(|custom| custom.iter()
+                        .find(|(k, _)| unsafe {k.as_bytes()}.eq_ignore_ascii_case(name.as_bytes()))
+                        .map(|(_, v)| v)
+                    )
                     .or_else(|| {
-                        let standard = Header::from_bytes(name.as_bytes())?;
+                        let standard = Header::from_bytes_ignore_case(name.as_bytes())?;
                         unsafe {self.standard.get(standard as usize)}
                     })?;
                 Some(std::str::from_utf8(unsafe {value.as_bytes()}).expect("Header value is not UTF-8"))
@@ -345,15 +357,17 @@ impl Headers {
 
         let c = unsafe {self.custom.as_mut().unwrap_unchecked()};
 
-        match c.get_mut(&name) {
-            Some(v) => unsafe {
-                v.extend_from_slice(b", ");
-                v.extend_from_slice(value.as_bytes());
-            }
-            None => {
-                c.insert(name, value);
+        /* header names are case-insensitive */
+        for (k, v) in c.iter_mut() {
+            if unsafe {k.as_bytes().eq_ignore_ascii_case(name.as_bytes())} {
+                unsafe {
+                    v.extend_from_slice(b", ");
+                    v.extend_from_slice(value.as_bytes());
+                }
+                return
             }
         }
+        c.insert(name, value);
     }
 }
 
